@@ -226,7 +226,8 @@ pub fn check(id: &str, tier: Tier) -> i32 {
       if *nt == 2 && layouts.contains(&(true, 256, 8)) {
         // the same programs racing on the bump cursor: fresh space left, cursor at an odd residue
         for fl in fls {
-          for (leave, odd, shape) in [(48u32, 3u8, 3u8), (32, 0, 1)] {
+          // (the last two: room for the request itself but not for the request plus its alignment padding)
+          for (leave, odd, shape) in [(48u32, 3u8, 3u8), (32, 0, 1), (12, 3, 3), (14, 5, 1)] {
             for tu in tuples(menu, 2) {
               let progs: Vec<Vec<TOp>> = tu.iter().enumerate().map(|(t, p)| prog(*p, t)).collect();
               items.push((Harness { fl: *fl, unify: true, min_seg: 8, cap: 256, shape, progs, own_arenas: false, leave, odd, reserved: 0 }, *bound));
